@@ -27,6 +27,9 @@ type pmtPipe struct {
 	buf    []byte
 	closed bool
 	waiters int  // readers currently blocked in Read
+	wheld    bool // writers block until releaseWrites(); then the write fails if wfail is set (or the pipe is closed)
+	wfail    bool
+	wwaiters int
 	stalled bool // readers get nothing (not even buffered data) until unstall(): "the bytes are still in flight"
 	held   bool // end-of-stream is not reported to readers before release() (scripted "the read error surfaces now")
 }
@@ -70,6 +73,14 @@ func (p *pmtPipe) Read(b []byte) (int, error) {
 func (p *pmtPipe) Write(b []byte) (int, error) {
 	p.mu.Lock()
 	defer p.mu.Unlock()
+	for p.wheld {
+		p.wwaiters++
+		p.cond.Wait()
+		p.wwaiters--
+	}
+	if p.wfail {
+		return 0, pmtErrClosed
+	}
 	if p.closed {
 		return 0, pmtErrClosed
 	}
@@ -105,6 +116,7 @@ func (a pmtAddr) Network() string { return "mem" }
 func (a pmtAddr) String() string  { return string(a) }
 
 type pmtShared struct {
+	onClose func() // called once, after the connection has been closed (scripted reaction of the remote side)
 	mu     sync.Mutex
 	pipes  []*pmtPipe
 	hold   bool // new pipes hold their end-of-stream until releaseReadErrors()
@@ -174,8 +186,49 @@ func (c *pmtConn) Close() error {
 			p.Close()
 		}
 		c.sh.mu.Unlock()
+		if f := c.sh.onClose; f != nil {
+			f()
+		}
 	})
 	return nil
+}
+
+// holdWrites: writes on both ends block; releaseWrites(fail) lets them go on (and fail when fail is set).
+func (c *pmtConn) holdWrites() {
+	c.sh.mu.Lock()
+	pipes := append([]*pmtPipe{}, c.sh.pipes...)
+	c.sh.mu.Unlock()
+	for _, p := range pipes {
+		p.mu.Lock()
+		p.wheld = true
+		p.mu.Unlock()
+	}
+}
+
+func (c *pmtConn) releaseWrites(fail bool) {
+	c.sh.mu.Lock()
+	pipes := append([]*pmtPipe{}, c.sh.pipes...)
+	c.sh.mu.Unlock()
+	for _, p := range pipes {
+		p.mu.Lock()
+		p.wheld = false
+		p.wfail = fail
+		p.cond.Broadcast()
+		p.mu.Unlock()
+	}
+}
+
+func (c *pmtConn) blockedWriters() int {
+	c.sh.mu.Lock()
+	pipes := append([]*pmtPipe{}, c.sh.pipes...)
+	c.sh.mu.Unlock()
+	n := 0
+	for _, p := range pipes {
+		p.mu.Lock()
+		n += p.wwaiters
+		p.mu.Unlock()
+	}
+	return n
 }
 
 // holdReadErrors: after a close of either end, blocked reads keep blocking until releaseReadErrors.
